@@ -466,3 +466,42 @@ def check_clear_is_complete(run, prog, bodies, rule='C18-M4', namer=None):
         else:
             run.ok(rule, name, 'store and queue emptied together on every path')
     return n
+
+
+def check_probe_under_queue_lock(run, ctx, rule='C18-M5'):
+    """check-then-act on the store of the async cache: a test "is this key stored?" whose answer decides what a store
+    operation does (replace the old entry and its queue slot, or not) is only valid while the order-queue lock is held -
+    that lock is what serialises the stores.  A probe made before the lock is taken goes stale: two tasks that miss on the
+    same key both see "absent", both push the key, and the queue holds it twice."""
+    from .effects import classify
+    n = 0
+    for body in ctx.core.bodies.values():
+        root = body
+        while root.kind == 'closure' and ctx.prog.bodies.get(root.parent) is not None:
+            root = ctx.prog.bodies[root.parent]
+        if not root.name.startswith(N.ASYNC + '::') or root.name.rsplit('::', 1)[-1] not in ('insert', 'insert_with_memory', 'is_already_key_inserted'):
+            continue
+        probes = [(bi, t) for bi, t in body.calls() if classify(t) == 'S?']
+        if not probes:
+            continue
+        must = Held(body, may=False)
+        res = Resolver(body, value_like=False)
+        # does the function receive the locked queue from its caller?
+        guard_param = False
+        if body.kind in ('fn', 'assoc_fn'):
+            for i in range(1, body.arg_count + 1):
+                ty = body.local_ty(i)
+                if 'MutexGuard' in ty or ('VecDeque' in ty and ty.startswith('&mut')):
+                    guard_param = True
+        for bi, t in probes:
+            n += 1
+            held = {l for (l, c, m) in must.held_at(bi) if c in ('ORDER', 'TL_ORDER')}
+            key = '%s/bb%d' % (body.name, bi)
+            if held or guard_param:
+                run.ok(rule, key, 'presence test made under the queue lock' if held else 'the caller passes the locked queue')
+            else:
+                run.bad(rule, '%s/probe-before-the-queue-lock' % body.name, '%s asks whether the key is stored (%s) while the order-queue lock is not held; its answer is used after the lock '
+                        'is taken, when another task may already have stored the key: the key is then queued twice and the Random policy can leave limit+1 entries'
+                        % (body.name, body.loc(bi)), site='%s (%s)' % (body.name, body.loc(bi)), oracle='presence tests that steer a store are made under the queue lock')
+    run.require(rule, 'presence tests in the async store path', n, 1)
+    return n
